@@ -1,12 +1,597 @@
-// Package c17 checks property C17 (not built yet).
+// Package c17 checks property C17: metadata IDs are unique (explicit IDs kept,
+// unassigned definitions receive the smallest unused numbers, references print
+// the ID of the node they point to) and, in a parsed module, every reference to
+// !N is the node object of definition !N, distinctness and inline-versus-
+// numbered placement are preserved and repeated named metadata are merged in
+// textual order.
+//
+// (S) spec/Metadata.tla (ID assignment laws) and spec/MetadataGraph.tla (graph
+// patterns and what the parser must make of them) are checked by TLC; (G) both
+// emit vectors that are replayed into the ir API and into asm.ParseString;
+// (T) what the real code did is recorded and judged by spec/MetadataTrace.tla.
+// LLVM 14 (llvm-as, llvm-dis) arbitrates validity and meaning.
 package c17
 
 import (
+	"fmt"
+	"math/rand"
+	"regexp"
+	"sort"
+	"strconv"
+	"strings"
+	"sync"
+	"time"
+
+	"github.com/llir/llvm/asm"
+	"github.com/llir/llvm/ir"
+	"github.com/llir/llvm/ir/metadata"
+
+	"verif/harness/llvmoracle"
 	"verif/harness/mbt"
 	"verif/harness/props/reg"
 )
 
 func init() { reg.Register("C17", Run) }
 
+// --- IR side ---------------------------------------------------------------------
+
+type irWant struct {
+	OK     bool      `json:"ok"`
+	IDs    []int64   `json:"ids"`
+	Tokens [][]int64 `json:"tokens"`
+}
+
+type irVector struct {
+	IDs   []int64 `json:"ids"`
+	Shape int     `json:"shape"`
+	Refs  [][]int `json:"refs"`
+	Want  irWant  `json:"want"`
+}
+
+type irRow struct {
+	IDs  []int64 `json:"ids"`
+	Refs [][]int `json:"refs"`
+	Got  irWant  `json:"got"`
+}
+
+var reDefLine = regexp.MustCompile(`(?m)^!(\d+) = (distinct )?(.*)$`)
+var reRefTok = regexp.MustCompile(`!(\d+)`)
+var reQuoted = regexp.MustCompile(`"(?:[^"\\]|\\.)*"`)
+
+// defTokens reads the definition lines of a printed module: per line the
+// definition ID followed by every !N reference token, left to right.
+func defTokens(text string) (ids []int64, tokens [][]int64, distinct []bool) {
+	tokens = [][]int64{}
+	ids = []int64{}
+	for _, m := range reDefLine.FindAllStringSubmatch(text, -1) {
+		id, _ := strconv.ParseInt(m[1], 10, 64)
+		row := []int64{id}
+		rest := reQuoted.ReplaceAllString(m[3], `""`)
+		for _, r := range reRefTok.FindAllStringSubmatch(rest, -1) {
+			v, _ := strconv.ParseInt(r[1], 10, 64)
+			row = append(row, v)
+		}
+		ids = append(ids, id)
+		tokens = append(tokens, row)
+		distinct = append(distinct, m[2] != "")
+	}
+	return
+}
+
+// buildIR builds the module of a vector through the ir API.
+func buildIR(ids []int64, refs [][]int) (*ir.Module, []*metadata.Tuple) {
+	m := ir.NewModule()
+	ts := make([]*metadata.Tuple, len(ids))
+	for i := range ids {
+		ts[i] = &metadata.Tuple{}
+		ts[i].SetID(ids[i])
+	}
+	for i := range ids {
+		for _, j := range refs[i] {
+			ts[i].Fields = append(ts[i].Fields, ts[j-1])
+		}
+		m.MetadataDefs = append(m.MetadataDefs, ts[i])
+	}
+	return m, ts
+}
+
+// runIR prints the vector's module with the real code and records the outcome.
+func runIR(v irVector) (row irRow, text string, extra string) {
+	row = irRow{IDs: v.IDs, Refs: v.Refs, Got: irWant{IDs: []int64{}, Tokens: [][]int64{}}}
+	if row.Refs == nil {
+		row.Refs = [][]int{}
+	}
+	for i := range row.Refs {
+		if row.Refs[i] == nil {
+			row.Refs[i] = []int{}
+		}
+	}
+	m, ts := buildIR(v.IDs, row.Refs)
+	_, panicked := mbt.Guard(func() { text = m.String() })
+	if panicked {
+		return row, "", ""
+	}
+	row.Got.OK = true
+	ids, toks, _ := defTokens(text)
+	row.Got.IDs, row.Got.Tokens = ids, toks
+	// the IDs stored on the nodes are the IDs printed, and printing again changes nothing
+	for i, t := range ts {
+		if i < len(ids) && t.ID() != ids[i] {
+			extra = fmt.Sprintf("definition %d carries ID %d after printing but was printed as !%d", i, t.ID(), ids[i])
+		}
+	}
+	var again string
+	if _, p := mbt.Guard(func() { again = m.String() }); p || again != text {
+		extra = "printing a second time gives a different result (ID assignment is not idempotent)"
+	}
+	return row, text, extra
+}
+
+// --- parser side -------------------------------------------------------------------
+
+// op is an operand in the shape of spec/MetadataGraph.tla.
+type op map[string]interface{}
+
+type patText struct {
+	Defs []struct {
+		ID       int64 `json:"id"`
+		Distinct bool  `json:"distinct"`
+		Ops      []op  `json:"ops"`
+	} `json:"defs"`
+	Named []struct {
+		Name  string `json:"name"`
+		Nodes []op   `json:"nodes"`
+		Pos   string `json:"pos"`
+	} `json:"named"`
+	Sites struct {
+		Global op   `json:"global"`
+		Func   op   `json:"func"`
+		Inst   op   `json:"inst"`
+		Term   op   `json:"term"`
+		Args   []op `json:"args"`
+	} `json:"sites"`
+}
+
+type pattern struct {
+	Pat  map[string]interface{} `json:"pat"`
+	Text patText                `json:"text"`
+	Want map[string]interface{} `json:"want"`
+}
+
+type obsDef struct {
+	ID       int64  `json:"id"`
+	Distinct bool   `json:"distinct"`
+	Ops      []op   `json:"ops"`
+	Kind     string `json:"kind"`
+}
+type obsNamed struct {
+	Name  string `json:"name"`
+	Nodes []op   `json:"nodes"`
+}
+type obsSites struct {
+	Global op   `json:"global"`
+	Func   op   `json:"func"`
+	Inst   op   `json:"inst"`
+	Term   op   `json:"term"`
+	Args   []op `json:"args"`
+}
+type observation struct {
+	Defs  []obsDef   `json:"defs"`
+	Named []obsNamed `json:"named"`
+	Sites obsSites   `json:"sites"`
+}
+
+type printed struct {
+	IDs    []int64   `json:"ids"`
+	Tokens [][]int64 `json:"tokens"`
+}
+
+type parseRow struct {
+	Src     string                 `json:"src"`
+	Pat     map[string]interface{} `json:"pat,omitempty"`
+	Want    interface{}            `json:"want"`
+	Obs     observation            `json:"obs"`
+	Printed printed                `json:"printed"`
+	// not part of the judged record
+	text string
+	name string
+	kind map[int64]string
+}
+
+func renderOp(o op) string {
+	switch o["k"] {
+	case "ref":
+		return fmt.Sprintf("!%d", int64(o["id"].(float64)))
+	case "null":
+		return "null"
+	case "str":
+		return `!"` + o["s"].(string) + `"`
+	case "tuple":
+		var parts []string
+		if ops, ok := o["ops"].([]interface{}); ok {
+			for _, x := range ops {
+				parts = append(parts, renderOp(op(x.(map[string]interface{}))))
+			}
+		}
+		return "!{" + strings.Join(parts, ", ") + "}"
+	}
+	return "?"
+}
+
+// render turns the abstract text of a pattern into LLVM assembly.
+func render(t patText) string {
+	var sb strings.Builder
+	fmt.Fprintf(&sb, "@g = global i32 0, !foo %s\n\n", renderOp(t.Sites.Global))
+	sb.WriteString("declare i1 @llvm.type.test(i8*, metadata)\n\n")
+	fmt.Fprintf(&sb, "define void @f() !bar %s {\n", renderOp(t.Sites.Func))
+	fmt.Fprintf(&sb, "  %%1 = add i32 1, 2, !foo %s\n", renderOp(t.Sites.Inst))
+	for i, a := range t.Sites.Args {
+		fmt.Fprintf(&sb, "  %%%d = call i1 @llvm.type.test(i8* null, metadata %s)\n", i+2, renderOp(a))
+	}
+	fmt.Fprintf(&sb, "  ret void, !foo %s\n}\n\n", renderOp(t.Sites.Term))
+	named := func(pos string) {
+		for _, n := range t.Named {
+			if n.Pos != pos {
+				continue
+			}
+			var parts []string
+			for _, x := range n.Nodes {
+				parts = append(parts, renderOp(x))
+			}
+			fmt.Fprintf(&sb, "!%s = !{%s}\n", n.Name, strings.Join(parts, ", "))
+		}
+	}
+	named("pre")
+	for _, d := range t.Defs {
+		var parts []string
+		for _, x := range d.Ops {
+			parts = append(parts, renderOp(x))
+		}
+		dist := ""
+		if d.Distinct {
+			dist = "distinct "
+		}
+		fmt.Fprintf(&sb, "!%d = %s!{%s}\n", d.ID, dist, strings.Join(parts, ", "))
+	}
+	named("post")
+	return sb.String()
+}
+
 // Run is the C17 check.
-func Run(tier, replay string) { mbt.Infra("check C17 is not built yet") }
+func Run(tier, replay string) {
+	rep := mbt.NewReport("C17", tier, "model_checking")
+	rep.Rule = "definition lists (IDs in {-1,0..MaxId}, x graph shape) built through the ir API and printed; module texts (TLC-generated metadata graph patterns and the 28 specialised node kinds with subsets of fields) parsed, walked by reflection and printed; every record judged by MetadataTrace"
+	rep.Assumptions = []string{
+		"llvm-as/llvm-dis 14 decide validity and meaning of every text used for a verdict",
+		"pointer identity is observed through reflection over the exported fields of the parsed module",
+	}
+	llvmoracle.Require()
+	rng := rand.New(rand.NewSource(mbt.Seed()))
+	if replay != "" {
+		runReplay(rep, replay)
+		rep.Finish()
+	}
+
+	// (S) the laws hold for the ID assignment as written; the wrong variants are rejected
+	maxDefs, maxID := "4", "4"
+	t := mbt.MustTLC(mbt.TLCOpts{Spec: "Metadata", Cfg: "Metadata.cfg", Workers: 1, Timeout: 10 * time.Minute,
+		Consts: map[string]string{"Emit": "TRUE", "MaxDefs": maxDefs, "MaxId": maxID}})
+	if len(t.Violated) > 0 {
+		mbt.Infra("Metadata.tla: the ID assignment as written violates %v: specification error", t.Violated)
+	}
+	rep.AddTLC(t)
+	vectors, err := mbt.ReadNDJSON[irVector](t.Dir + "/md_vectors.ndjson")
+	if err != nil || len(vectors) == 0 {
+		mbt.Infra("no vectors from Metadata.tla: %v", err)
+	}
+	t.Cleanup()
+	for _, variant := range []string{`"from-zero"`, `"count-up"`, `"no-dup-check"`} {
+		tv := mbt.MustTLC(mbt.TLCOpts{Spec: "Metadata", Cfg: "MetadataVacuity.cfg", Workers: 4, Consts: map[string]string{"Variant": variant}})
+		if len(tv.Violated) == 0 {
+			mbt.Infra("vacuity guard: the laws of Metadata.tla accept the wrong variant %s", variant)
+		}
+		tv.Cleanup()
+	}
+	maxN := "3"
+	tg := mbt.MustTLC(mbt.TLCOpts{Spec: "MetadataGraph", Cfg: "MetadataGraph.cfg", Workers: 1, Timeout: 15 * time.Minute,
+		Consts: map[string]string{"Emit": "TRUE", "MaxN": maxN}})
+	if len(tg.Violated) > 0 {
+		mbt.Infra("MetadataGraph.tla violates %v: specification error", tg.Violated)
+	}
+	rep.AddTLC(tg)
+	patterns, err := mbt.ReadNDJSON[pattern](tg.Dir + "/md_patterns.ndjson")
+	if err != nil || len(patterns) == 0 {
+		mbt.Infra("no patterns from MetadataGraph.tla: %v", err)
+	}
+	tg.Cleanup()
+
+	// (G) IR side
+	irRows := make([]irRow, len(vectors))
+	irText := make([]string, len(vectors))
+	irExtra := make([]string, len(vectors))
+	llvmEvery := 1
+	if tier != "thorough" {
+		llvmEvery = 5
+	}
+	off := rng.Intn(llvmEvery)
+	var mu sync.Mutex
+	llvmChecked, llvmRejected := 0, 0
+	llvmoracle.Parallel(len(vectors), func(i int) {
+		irRows[i], irText[i], irExtra[i] = runIR(vectors[i])
+		if irRows[i].Got.OK && vectors[i].Want.OK && (i+off)%llvmEvery == 0 {
+			ok, diag := llvmoracle.Accepts(irText[i])
+			mu.Lock()
+			llvmChecked++
+			if !ok {
+				llvmRejected++
+				irExtra[i] = "llvm-as rejects the printed module: " + mbt.Truncate(diag, 200)
+			}
+			mu.Unlock()
+		}
+	})
+	for i, v := range vectors {
+		rep.Count(fmt.Sprintf("ir:%v/%d", v.IDs, v.Shape), len(v.IDs) >= 2)
+		if irExtra[i] != "" {
+			rep.Fail(mbt.Failure{Signature: "C17|ir|" + extraClass(irExtra[i]) + "|" + idsClass(v.IDs), What: fmt.Sprintf("ids %v shape %d: %s", v.IDs, v.Shape, irExtra[i]),
+				Case: map[string]interface{}{"kind": "ir", "ids": v.IDs, "refs": v.Refs, "shape": v.Shape}})
+		}
+	}
+	rep.Sample(map[string]interface{}{"kind": "ir", "ids": vectors[len(vectors)/2].IDs, "refs": vectors[len(vectors)/2].Refs, "want": vectors[len(vectors)/2].Want, "got": irRows[len(vectors)/2].Got})
+	rep.Extra["ir_vectors"] = len(vectors)
+	rep.Extra["ir_llvm_checked"] = llvmChecked
+
+	// (G) parser side: TLC-generated graph patterns
+	rows := make([]*parseRow, 0, len(patterns)+200)
+	for _, p := range patterns {
+		rows = append(rows, &parseRow{Src: "graph", Pat: p.Pat, Want: p.Want, text: render(p.Text), name: fmt.Sprint(p.Pat)})
+	}
+	// the specialised node kinds
+	diRows, diInfo := specialisedRows(tier, rng)
+	rows = append(rows, diRows...)
+	for k, v := range diInfo {
+		rep.Extra[k] = v
+	}
+	canonEvery := 1
+	if tier != "thorough" {
+		canonEvery = 6
+	}
+	judged := processParseRows(rep, rows, canonEvery, rng.Intn(canonEvery))
+	rep.Sample(map[string]interface{}{"kind": "graph", "pat": patterns[len(patterns)/3].Pat, "text": render(patterns[len(patterns)/3].Text)})
+
+	// (T) everything recorded is judged by MetadataTrace
+	judge(rep, irRows, vectors, judged)
+	rep.Exhaustive = false
+	rep.Finish()
+}
+
+func idsClass(ids []int64) string {
+	has := map[int64]bool{}
+	dup, unassigned, explicit := false, false, false
+	for _, v := range ids {
+		if v == -1 {
+			unassigned = true
+			continue
+		}
+		explicit = true
+		if has[v] {
+			dup = true
+		}
+		has[v] = true
+	}
+	var parts []string
+	if dup {
+		parts = append(parts, "duplicate-explicit")
+	} else if explicit {
+		parts = append(parts, "explicit")
+	}
+	if unassigned {
+		parts = append(parts, "unassigned")
+	}
+	return strings.Join(parts, "+")
+}
+
+func extraClass(s string) string {
+	switch {
+	case strings.HasPrefix(s, "llvm-as rejects"):
+		return "llvm-rejects-printed"
+	case strings.HasPrefix(s, "printing a second time"):
+		return "not-idempotent"
+	default:
+		return "node-id-differs-from-printed"
+	}
+}
+
+// processParseRows validates each text with llvm-as, parses it with the real
+// parser, records the observation and returns the rows that can be judged.
+func processParseRows(rep *mbt.Report, rows []*parseRow, canonEvery, off int) []*parseRow {
+	type res struct {
+		discard string
+		fail    *mbt.Failure
+	}
+	out := make([]res, len(rows))
+	var mu sync.Mutex
+	canonChecked := 0
+	llvmoracle.Parallel(len(rows), func(i int) {
+		r := rows[i]
+		caseOf := map[string]interface{}{"kind": "parse", "src": r.Src, "text": r.text, "want": r.Want, "pat": r.Pat}
+		canonIn, ok, diag := "", false, ""
+		doCanon := (i+off)%canonEvery == 0
+		if doCanon {
+			canonIn, ok, diag = llvmoracle.Canon(r.text)
+		} else {
+			ok, diag = llvmoracle.Accepts(r.text)
+		}
+		if !ok {
+			out[i].discard = diag
+			return
+		}
+		var m *ir.Module
+		var perr error
+		if msg, p := mbt.Guard(func() { m, perr = asm.ParseString("pattern.ll", r.text) }); p {
+			out[i].fail = &mbt.Failure{Signature: "C17|parse|panic|" + r.Src + r.kindTag(), What: fmt.Sprintf("%s: the parser panics on a text llvm-as accepts: %s", r.name, mbt.Truncate(msg, 300)), Case: caseOf}
+			return
+		}
+		if perr != nil {
+			out[i].fail = &mbt.Failure{Signature: "C17|parse|error|" + r.Src + r.kindTag(), What: fmt.Sprintf("%s: the parser rejects a text llvm-as accepts: %s", r.name, mbt.Truncate(perr.Error(), 300)), Case: caseOf}
+			return
+		}
+		r.Obs = observe(m, r.Src == "graph")
+		var text string
+		if msg, p := mbt.Guard(func() { text = m.String() }); p {
+			out[i].fail = &mbt.Failure{Signature: "C17|print|panic|" + r.Src + r.kindTag(), What: fmt.Sprintf("%s: printing the parsed module panics: %s", r.name, mbt.Truncate(msg, 300)), Case: caseOf}
+			return
+		}
+		r.Printed.IDs, r.Printed.Tokens, _ = defTokens(text)
+		if doCanon {
+			canonOut, ok2, diag2 := llvmoracle.Canon(text)
+			mu.Lock()
+			canonChecked++
+			mu.Unlock()
+			if !ok2 {
+				out[i].fail = &mbt.Failure{Signature: "C17|print|llvm-rejects-printed|" + r.Src + r.kindTag(), What: fmt.Sprintf("%s: llvm-as rejects the printed module: %s", r.name, mbt.Truncate(diag2, 300)), Case: caseOf}
+			} else if canonIn != canonOut {
+				out[i].fail = &mbt.Failure{Signature: "C17|print|llvm-reads-differently|" + r.Src + r.kindTag(), What: fmt.Sprintf("%s: llvm-as|llvm-dis of input and of printed output differ: %s", r.name, firstDiff(canonIn, canonOut)), Case: caseOf}
+			}
+		}
+	})
+	var judged []*parseRow
+	discards := 0
+	for i, r := range rows {
+		rep.Count("parse:"+r.Src+":"+r.name, true)
+		if out[i].discard != "" {
+			discards++
+			if discards <= 3 {
+				rep.Note("discarded (llvm-as rejects the generated text): %s: %s", r.name, mbt.Truncate(out[i].discard, 200))
+			}
+			continue
+		}
+		if out[i].fail != nil {
+			rep.Fail(*out[i].fail)
+			if strings.HasPrefix(out[i].fail.Signature, "C17|parse|") || strings.HasPrefix(out[i].fail.Signature, "C17|print|panic") {
+				continue
+			}
+		}
+		judged = append(judged, r)
+	}
+	rep.Extra["parse_texts"] = len(rows)
+	rep.Extra["parse_texts_discarded_by_llvm"] = discards
+	rep.Extra["canon_compared"] = canonChecked
+	if discards*50 > len(rows) {
+		mbt.Infra("%d of %d generated texts are rejected by llvm-as (more than 2%%): the generator is wrong", discards, len(rows))
+	}
+	return judged
+}
+
+func (r *parseRow) kindTag() string {
+	if r.Src != "text" {
+		return ""
+	}
+	return "|" + r.name[:strings.IndexAny(r.name+"#", "#")]
+}
+
+func firstDiff(a, b string) string {
+	la, lb := strings.Split(a, "\n"), strings.Split(b, "\n")
+	for i := 0; i < len(la) && i < len(lb); i++ {
+		if la[i] != lb[i] {
+			return fmt.Sprintf("line %d: input %q, printed %q", i+1, la[i], lb[i])
+		}
+	}
+	return fmt.Sprintf("input %d lines, printed %d lines", len(la), len(lb))
+}
+
+var reBadRow = regexp.MustCompile(`<<"BADROW", "([^"]+)", "([^"]+)", (\d+)>>`)
+
+// judge runs MetadataTrace over the recorded rows and classifies the BADROW list.
+func judge(rep *mbt.Report, irRows []irRow, vectors []irVector, prs []*parseRow) {
+	t := mbt.MustTLC(mbt.TLCOpts{Spec: "MetadataTrace", Cfg: "MetadataTrace.cfg", Workers: 8, Timeout: 20 * time.Minute,
+		Data: map[string][]byte{"md_ir_rec.ndjson": mbt.NDJSONBytes(irRows), "md_parse_rec.ndjson": mbt.NDJSONBytes(prs)}})
+	defer t.Cleanup()
+	if len(t.Violated) > 0 {
+		mbt.Infra("MetadataTrace: unexpected violation %v", t.Violated)
+	}
+	if t.Distinct != int64(len(irRows)+len(prs))+1 {
+		mbt.Infra("MetadataTrace consumed %d rows of %d", t.Distinct-1, len(irRows)+len(prs))
+	}
+	rep.AddTLC(t)
+	rep.TracesValidated += len(irRows) + len(prs)
+	for _, m := range reBadRow.FindAllStringSubmatch(t.Output, -1) {
+		file, law := m[1], m[2]
+		ri, _ := strconv.Atoi(m[3])
+		if law == "want-transport" {
+			mbt.Infra("MetadataTrace: row %d: the transported `want` differs from WantOf(pat)", ri)
+		}
+		if file == "ir" {
+			row := irRows[ri-1]
+			var want interface{}
+			if vectors != nil {
+				want = vectors[ri-1].Want
+			}
+			rep.Fail(mbt.Failure{Signature: "C17|ir|" + law + "|" + idsClass(row.IDs),
+				What: fmt.Sprintf("definition list %v with operands %v: law %s fails; the code printed %+v, the specification requires %+v", row.IDs, row.Refs, law, row.Got, want),
+				Case: map[string]interface{}{"kind": "ir", "ids": row.IDs, "refs": row.Refs}})
+			continue
+		}
+		r := prs[ri-1]
+		rep.Fail(mbt.Failure{Signature: "C17|parse|" + law + "|" + r.Src + r.kindTag(),
+			What: fmt.Sprintf("%s: law %s fails on the parsed module; observed %s printed %v", r.name, law, mbt.Truncate(fmt.Sprintf("%+v", r.Obs), 600), r.Printed.Tokens),
+			Case: map[string]interface{}{"kind": "parse", "src": r.Src, "text": r.text, "want": r.Want, "pat": r.Pat}})
+	}
+}
+
+func runReplay(rep *mbt.Report, path string) {
+	var rf struct {
+		Failures []struct {
+			Case map[string]interface{} `json:"case"`
+		} `json:"failures"`
+	}
+	if err := mbt.ReadJSON(path, &rf); err != nil {
+		mbt.Infra("replay %s: %v", path, err)
+	}
+	var irRows []irRow
+	var prs []*parseRow
+	for _, f := range rf.Failures {
+		c := f.Case
+		switch c["kind"] {
+		case "ir":
+			var v irVector
+			for _, x := range c["ids"].([]interface{}) {
+				v.IDs = append(v.IDs, int64(x.(float64)))
+			}
+			if rr, ok := c["refs"].([]interface{}); ok {
+				for _, x := range rr {
+					var l []int
+					if xs, ok := x.([]interface{}); ok {
+						for _, y := range xs {
+							l = append(l, int(y.(float64)))
+						}
+					}
+					v.Refs = append(v.Refs, l)
+				}
+			}
+			for len(v.Refs) < len(v.IDs) {
+				v.Refs = append(v.Refs, []int{})
+			}
+			row, _, extra := runIR(v)
+			rep.Count(fmt.Sprintf("ir:%v", v.IDs), true)
+			if extra != "" {
+				rep.Fail(mbt.Failure{Signature: "C17|ir|" + extraClass(extra) + "|" + idsClass(v.IDs), What: extra, Case: c})
+			}
+			irRows = append(irRows, row)
+		case "parse":
+			src, _ := c["src"].(string)
+			text, _ := c["text"].(string)
+			pat, _ := c["pat"].(map[string]interface{})
+			r := &parseRow{Src: src, Pat: pat, Want: c["want"], text: text, name: "replay#"}
+			if src == "text" {
+				r.Want = wantFromText(text)
+			}
+			prs = append(prs, r)
+		}
+	}
+	prs = processParseRows(rep, prs, 1, 0)
+	if len(irRows)+len(prs) > 0 {
+		judge(rep, irRows, nil, prs)
+	}
+}
+
+var _ = sort.Strings
